@@ -447,6 +447,29 @@ def check_C20(ctx, rep):
     into = [fn.name for fn in prog.crate_fns(FFI) if fn.has_body and any(callee_str(f).endswith('Box::<T, A>::into_raw') or callee_str(f).endswith('Box::<T>::into_raw') for (b, f, a, t) in calls(an.get(fn)))]
     fromr = [fn.name for fn in prog.crate_fns(FFI) if fn.has_body and any(callee_str(f).endswith('::from_raw') and 'Box' in callee_str(f) for (b, f, a, t) in calls(an.get(fn)))]
     rep.ob('C20.R5', '<inventory>', 'Box::into_raw-only-in-start', into == ['maybenot_start'], '%s' % into)
+    # the instance is handed over on every path that creates it: Box::into_raw runs only after `out` was found non-null,
+    # and every path from it to a return writes the pointer through `out` (else the framework leaks: no handle to stop it)
+    rw = lambda f: callee_str(f).endswith('MaybeUninit::<T>::write') or callee_str(f).endswith('<impl *mut T>::write') or \
+        callee_str(f).endswith('into_raw')
+    pfw = an.paths(ms, history=True, record_calls=rw, tag='handover')
+    outp = len(ms.inputs)   # last parameter
+    for (b, f, a, t) in calls(msa):
+        if not callee_str(f).endswith('into_raw'):
+            continue
+        ok, w = all_paths(pfw.at_entry(b), lambda S: any(
+            (f2[0] == 'variant' and f2[2] == 'Some' and contains(f2[1], lambda y: y == ('param', outp))) or
+            (f2[0] == 'bcall' and f2[1].endswith('is_null') and f2[3] is False and contains(f2[2], lambda y: y == ('param', outp))) for f2 in S))
+        rep.ob('C20.R5', ms, 'instance-created-only-with-a-place-to-return-it', ok,
+               'Box::into_raw is reached only after `out` was found non-null' + ('' if ok else '; witness: ' + show_facts(w)))
+    for r in msa.cfg.returns:
+        for S in pfw.at_entry(r):
+            made = [f2 for f2 in S if f2[0] == 'called' and f2[1].endswith('into_raw')]
+            if not made:
+                continue
+            wrote = [f2 for f2 in S if f2[0] == 'called' and f2[1].endswith('::write') and contains(f2[2][0], lambda y: y == ('param', outp))
+                     and contains(f2[2][1], lambda y: is_call(y, 'into_raw')) and msa.cfg.can_reach(made[0][3], f2[3])]
+            rep.ob('C20.R5', ms, 'created-instance-always-handed-over', bool(wrote),
+                   '' if wrote else 'a path creates the instance and returns without writing it to `out`: ' + show_facts(S))
     rep.ob('C20.R5', '<inventory>', 'Box::from_raw-only-in-stop', fromr == ['maybenot_stop'], '%s' % fromr)
     rep.assumptions += ['behaviour of the wrapped framework is covered by C01-C10', 'the caller honours the documented safety contract for the two exempted pointers',
                         'cbindgen naming conventions for tag enum, body structs and union members']
